@@ -1,7 +1,6 @@
 """C08 - every output is valid JavaScript of the same kind.  Not decided: validity of swc's printed
 text and Node's acceptance.  Decided: injected sequences are parenthesised, hoisted operands are never
-moved into a tighter grammar position unparenthesised, the program kind is untouched, arrow bodies
-become `{ return e }`, the trailer is a comment line after a newline."""
+moved into a tighter grammar position unparenthesised, the program kind is untouched, the trailer is a comment line after a newline."""
 from .. import hir, fmtargs
 from .. import xformrules as X
 from . import c04
@@ -25,11 +24,9 @@ def run(check):
     check.guarded("PAREN-WRAP", X.rule_paren_wrap)
     check.guarded("GROUP", X.rule_hoist_paren)
     check.guarded("PROGRAM-KIND", X.rule_program_kind)
-    check.guarded("ARROW-BLOCK", c04.rule_arrow_block)
-    check.guarded("INVENTORY", X.rule_inventory)
     check.guarded("TRAILER-COMMENT", rule_trailer_comment)
     return {
-        "explanation": "Grammar-position rules on what the rewriter constructs: parenthesised sequences, parenthesised hoisted comma expressions, untouched program kind, block bodies for rewritten arrows, only documented node kinds, and the trailer being a line comment on its own line.",
+        "explanation": "Grammar-position rules on what the rewriter constructs: parenthesised sequences, parenthesised hoisted comma expressions, untouched program kind, and the trailer being a line comment on its own line.",
         "assumptions": ["swc's code generator prints a syntactically valid program for a well-formed tree and does not run the fixer pass (tree printed as given)"],
         "not_decided": ["acceptance of the printed text by Node's parser for all inputs", "real-world library code"],
     }
